@@ -89,7 +89,11 @@ def replay(ctx, path):
         print("race reports are re-obtained by re-running bin/check C14")
         return 2
     cases = os.path.join(ctx.work, "one.ndjson")
-    vlib.write_ndjson(cases, [{"id": p["id"], "src": p.get("src") or p["source"]}])
+    one = {"id": p["id"], "src": p.get("src") or p["source"]}
+    for c in rawcorpus.cases():
+        if c["id"] == p["id"] and c.get("variants"):
+            one["variants"] = c["variants"]
+    vlib.write_ndjson(cases, [one])
     res = os.path.join(ctx.work, "one.json")
     vlib.run_cmd(ctx, [binp, "run", cases, res, "8"])
     s = json.load(open(res))
